@@ -29,8 +29,9 @@ CHECKS = [
         "specification action (every hook in turn) until nothing else can happen while the session goes on.", SRVNOTE, SRVTECH, "srv-family", "DESIGN.md 4.1, 5, 6 C03, 12.5"),
 
     chk("C07", "model_checking",
-        "Srv9P flush models (target kinds Attach/Stat/Clunk/Walk, with and without FlushOp, thorough: flush of a flush and two flushes "
-        "of one request with 3 requests) model-checked for FlushOrder, NoCallAfterCancel, FlushAnswered, CancelLeavesNothing; complete "
+        "Srv9P flush models (target kinds Attach/Stat/Clunk/Walk, with and without FlushOp, a target still queued behind an older request "
+        "of its tag, thorough: flush of a flush and two flushes of one request with 3 requests, 4-request tag groups by simulation) "
+        "model-checked for FlushOrder, NoCallAfterCancel, FlushAnswered, CancelLeavesNothing; complete "
         "transition tours of the small flush models replayed on the real server (every interleaving of the flusher's schedule points "
         "with the target's is a path of the graph), executions trace-validated and judged by the TLA+ monitors incl. fid probes after "
         "the Rflush (is the fid known to requests, is its number free); flush-heavy seeded random sessions, also in 'hold' mode "
